@@ -149,7 +149,12 @@ def gen_list(rng, n, tag0, dup_ids, tomos):
         if rng.random() < 0.5:
             df["object_id"] = base + rng.integers(0, 4, n).astype(float)
     df["score"] = np.round(rng.uniform(0, 1, n), 3) if rng.random() < 0.5 else rng.permutation(n) / max(1, n)   # ties vs none
-    for c in ("geom1", "geom4", "shift_x", "phi"):
+    if n:   # fractional field values that repeat within and between lists and share integer parts (0.25, 0.75, 1.25, ...)
+        df["geom4"] = rng.integers(0, 12, n) * 0.25 + 0.25
+        if rng.random() < 0.5:
+            df["score"] = rng.integers(0, 8, n) * 0.125
+            df["geom1"] = rng.integers(-6, 6, n) * 0.5 + 0.25
+    for c in ("geom1", "shift_x", "phi"):
         if n and rng.random() < 0.4:
             df.loc[rng.random(n) < 0.2, c] = np.nan
     if n and rng.random() < 0.3:
@@ -212,8 +217,11 @@ def run_case(ctx, case):
     Mo = cm.Motl
     rng = ctx.rng(case["i"], 1)
     real, model = [], []
-    for df in case["lists"]:
-        ok, m = ctx.call("Motl(df)", Mo, df.copy())
+    for li, df in enumerate(case["lists"]):
+        df = df.copy()
+        if (case["i"] + li) % 3 == 0:      # the constructor accepts the 20 fields in any column order
+            df = df[[COLS[k] for k in ctx.rng(case["i"], 10 + li).permutation(20)]]
+        ok, m = ctx.call("Motl(df)", Mo, df)
         if not ok:
             return
         real.append(m)
@@ -328,7 +336,7 @@ def run_case(ctx, case):
                 model.append(pr)
         elif op == "intersection":
             B, MB = real[b], model[b]
-            feature = "subtomo_id" if rng.random() < 0.7 else str(rng.choice(["tomo_id", "object_id"]))
+            feature = "subtomo_id" if rng.random() < 0.6 else str(rng.choice(["tomo_id", "object_id", "geom4", "score", "geom1"]))
             ok, r = ctx.call("get_motl_intersection", Mo.get_motl_intersection, A, B, feature_id=feature) if feature != "subtomo_id" or rng.random() < 0.5 \
                 else ctx.call("get_motl_intersection", Mo.get_motl_intersection, A, B)
             if not ok:
